@@ -39,7 +39,7 @@ Next == /\ bad = {}
                 /\ tr' = tr
                 /\ h' = HLatch(h1, step)
                 /\ bad' = fs
-                /\ \A c \in fs : PrintT(<<"V", Batch[tr].tid, k, c>>)
+                /\ \A c \in fs : PrintT(<<"V", Batch[tr].tid, k, c[2]>>)
                 /\ fs # {} => \A s \in Signatures(d, h, h1, prev, step) : PrintT(<<"K", Batch[tr].tid, k, s>>)
 
 Spec == Init /\ [][Next]_vars
